@@ -174,6 +174,11 @@ func main() {
 					}
 				case *ast.IncDecStmt:
 					markWrite(x.X)
+				case *ast.SliceExpr:
+					// v[a:b] of a package-level array or slice hands out a window into shared memory (io.Reader.Read(v[:n]) writes through it): assume written
+					if id, _ := rootIdent(x.X); id != nil && isPkgVar(pkg, id) {
+						F.writes[pkg+"."+id.Name] = true
+					}
 				case *ast.UnaryExpr:
 					if x.Op == token.AND {
 						if id, _ := rootIdent(x.X); id != nil && isPkgVar(pkg, id) {
